@@ -6,6 +6,7 @@ From Coq.Strings Require Import Byte.
 From EV Require Import Base.Bytes Base.Sha256 Extract.RunUtil.
 From EV Require Extract.RunC18.
 From EV Require Extract.RunC14.
+From EV Require Extract.RunC08.
 Import ListNotations.
 
 Definition run_line (line : bytes) : bytes :=
@@ -13,6 +14,7 @@ Definition run_line (line : bytes) : bytes :=
   | k :: args =>
       if bytes_eqb k "C18"%lb then RunC18.run args
       else if bytes_eqb k "C14"%lb then RunC14.run args
+      else if bytes_eqb k "C08"%lb then RunC08.run args
       else if bytes_eqb k "sha256"%lb then match args with [h] => match hexarg h with Some b => hex_of_bytes (sha256 b) | None => err "hex" end | _ => err "args" end
       else err "kind"
   | [] => err "empty" end.
